@@ -60,6 +60,10 @@ func (sk *SpaceKeeper) OnStart() error {
 	}
 
 	sk.quit = make(chan struct{})
+	// register the plotter before it is started: OnStop must not get past wg.Wait()
+	// (and a following OnStart must not replace sk.quit) while the plotter of this
+	// start has not even begun to run
+	sk.wg.Add(1)
 	go sk.spacePlotter()
 	go sk.fileWatcher()
 	logging.CPrint(logging.INFO, "spaceKeeper started")
